@@ -44,6 +44,8 @@ pub fn shape_h(h: &History) -> String {
                     bld::Val::TupleType { .. } => "tuple_type",
                     bld::Val::Section { .. } => "section",
                     bld::Val::Type(_) => "type",
+                    bld::Val::Custom { scribble: true, .. } => "custom-scribbling",
+                    bld::Val::Custom { .. } => "custom",
                     bld::Val::Tlvs { .. } => "tlvs",
                 };
                 s.push_str(&format!("payload({}{})", name, bucket(bld::ref_size(v))));
